@@ -50,8 +50,19 @@ pub fn c19g(ctx: &Ctx, begin: &mut dyn FnMut(J)) -> Outcome {
     // white space between tokens does not change what is declared
     let custom_crlf = custom.replace('\n', "\r\n");
     let custom_ws = custom.replace("\n ", "\n\t").replace("; ", ";\t").replace(")\n", ")\u{b}\u{c}\n");
+    // field names as real schemas have them: snake_case, a leading underscore, digits (field names are not restricted
+    // the way declaration names are)
+    let custom_names = format!(
+        "table hg38custom{}\n\"names\"\n(\n string chrom; \"c\"\n uint chrom_start; \"s\"\n uint chrom_end; \"e\"\n{})\n",
+        n,
+        (0..n).map(|i| format!(" lstring {}{}; \"x\"\n", ["gene_name", "_mouseOver", "exp_ids", "score2_", "x"][i % 5], i)).collect::<String>()
+    );
+    // the declaration's own name is an identifier too (autoSql turns it into a C struct name): my_table, _t2
+    let custom_table = custom.replacen(&format!("table custom{}", n), &format!("table {}{}", if n % 2 == 0 { "my_table" } else { "_t" }, n), 1);
     for (label, autosql, want_text, want_count) in [
         ("generated", Some(schema.clone()), Some(schema.clone()), 3 + n),
+        ("custom_snake_case_field_names", Some(custom_names.clone()), Some(custom_names.clone()), 3 + n),
+        ("custom_snake_case_table_name", Some(custom_table.clone()), Some(custom_table.clone()), 3 + n),
         ("custom", Some(custom.clone()), Some(custom.clone()), 3 + n),
         ("custom_crlf", Some(custom_crlf.clone()), Some(custom_crlf.clone()), 3 + n),
         ("custom_tabs_vt_ff", Some(custom_ws.clone()), Some(custom_ws.clone()), 3 + n),
